@@ -15,7 +15,8 @@ either representation and exported to every format without a panic, and malforme
 rejected identically by both representations" — is FALSE on the pinned code: the negative witnesses at
 the end of this file are circuits the builders accept on which the (validated) model panics, or on which
 the two representations answer differently.  What is proved instead carries the hypothesis `ExecWF`
-(the execution-relevant conjuncts of `WellFormed`) and is named `…_partial`.
+(the execution-relevant conjuncts of `WellFormed`) and is named `…_partial`.  Where a defect was repaired in /repo
+(`fix:` commits) the witness is now the positive statement (`…_same_error`, `…_exports`, `…_rejected_identically`).
 -/
 namespace Q1t.Props.C18
 open Q1t Q1t.Sim Q1t.Builders Q1t.WellFormed Q1t.ExportClass
@@ -245,19 +246,35 @@ theorem neg_repeated_qubit : allAccepted 2 0 wDup = true ∧ circDefects (built 
     latexOutcome (built 2 0 wDup) = .panic :=
   ⟨dup_accepted, dup_defects, dup_vec, dup_stab, dup1_vec, dup1_stab, dup_latex⟩
 
-/-- **D10, `measure_all` width**: `measure_all(&[0])` on two qubits is an error on the vector
-representation and accepted by the stabilizer one -/
-theorem neg_measure_all_short : allAccepted 2 2 wMeasureAllShort = true ∧
+/-- **D10, `measure_all` width** (finding C18-measure-all-len-diverges, fixed): `measure_all(&[0])` on two qubits is
+accepted by the builder (the conjunct `measureAllLen` of `WellFormed` is still needed for a run to end in `ok`, and the
+OpenQASM exporter still relies on it) and is now the SAME error `InvalidNrMeasurementBits(1, 2)` on both
+representations (the stabilizer one used to measure the listed prefix only) -/
+theorem measure_all_short_same_error : allAccepted 2 2 wMeasureAllShort = true ∧
     circDefects (built 2 2 wMeasureAllShort) = [.measureAllLen] ∧
     runVec (built 2 2 wMeasureAllShort) 1 [] = .err (.invalidNrMeasurementBits 1 2) ∧
-    runStab (built 2 2 wMeasureAllShort) 1 [] = .ok :=
+    runStab (built 2 2 wMeasureAllShort) 1 [] = .err (.invalidNrMeasurementBits 1 2) :=
   ⟨mall_accepted, mall_defects, mall_vec, mall_stab⟩
 
-/-- `peek_all` with more bits than qubits: error on the vector representation, panic on the stabilizer one -/
-theorem neg_peek_all_long : allAccepted 1 2 wPeekAllLong = true ∧
+/-- `peek_all` with more bits than qubits (finding C19-abort-exec-measure-all-len, fixed): the same error
+`InvalidNrMeasurementBits(2, 1)` on both representations (the stabilizer one used to read past the tableau and panic) -/
+theorem peek_all_long_same_error : allAccepted 1 2 wPeekAllLong = true ∧
     runVec (built 1 2 wPeekAllLong) 1 [] = .err (.invalidNrMeasurementBits 2 1) ∧
-    runStab (built 1 2 wPeekAllLong) 1 [] = .panic :=
+    runStab (built 1 2 wPeekAllLong) 1 [] = .err (.invalidNrMeasurementBits 2 1) :=
   ⟨pall_accepted, pall_vec, pall_stab⟩
+
+/-- **the repaired width check in general**: for ALL states of equal size, bit lists of the wrong length and result
+arrays, `measure_all_into` and `peek_all_into` of both representations return the same error —
+`InvalidNrMeasurementBits(len, nr_bits)`, or `NotEnoughSpace` first — before anything is sampled or written -/
+theorem measure_all_len_rejected_identically {α : Type} [Zero α] [One α] [Add α] [Mul α] [Neg α] [Sub α]
+    [SimAmp α] (half : α) (ph : List Nat) (sv : VecState α) (ss : StabState)
+    (cbits res : List Nat) (collapse : Bool) (hn : sv.nrBits = ss.nrBits) (hN : sv.nrShots = ss.nrShots)
+    (hl : cbits.length ≠ ss.nrBits) :
+    ∃ e, (e = .notEnoughSpace res.length ss.nrShots ∨ e = .invalidNrMeasurementBits cbits.length ss.nrBits) ∧
+      VecState.measureAllHelper sv cbits res collapse = Prog.err e ∧
+      StabState.measureAllInto half ph ss cbits res = Prog.err e ∧
+      StabState.peekAllInto half ss cbits res = Prog.err e :=
+  Q1t.C18W.measure_all_len_rejected_identically half ph sv ss cbits res collapse hn hN hl
 
 /-- **D10, classical bits < 64**: measuring into bit 64 of a 65-bit register panics (shift overflow) -/
 theorem neg_cbit_ge_64 : allAccepted 1 65 wCbit64 = true ∧ circDefects (built 1 65 wCbit64) = [.cbitGe64] ∧
@@ -269,12 +286,35 @@ theorem neg_controls_gt_64 : allAccepted 1 65 wControls65 = true ∧
     runVec (built 1 65 wControls65) 1 [] = .panic ∧ runStab (built 1 65 wControls65) 1 [] = .panic :=
   ⟨controls65_accepted, controls65_vec, controls65_stab⟩
 
-/-- **arity**, executed: a conditional gate with the wrong number of operands whose condition never holds is
-an error on the vector representation (arity checked first) and runs on the stabilizer one (never applied) -/
-theorem neg_cond_arity_diverges : allAccepted 1 1 wCondArity = true ∧
+/-- **arity**, executed (finding C18-cond-arity-diverges, fixed): a conditional gate with the wrong number of
+operands whose condition never holds, the identity gate on two qubits (its `conjugate` has no arity check), and a
+one-qubit gate on no qubit of a circuit without qubits (no tableau row) are the SAME error `InvalidNrBits` on both
+representations (the stabilizer one used to run all three) -/
+theorem cond_arity_same_error : allAccepted 1 1 wCondArity = true ∧
     circDefects (built 1 1 wCondArity) = [.arity] ∧
-    runVec (built 1 1 wCondArity) 1 [] = .err (.invalidNrBits 0 1) ∧ runStab (built 1 1 wCondArity) 1 [] = .ok :=
-  ⟨condArity_accepted, condArity_defects, condArity_vec, condArity_stab⟩
+    runVec (built 1 1 wCondArity) 1 [] = .err (.invalidNrBits 0 1) ∧
+    runStab (built 1 1 wCondArity) 1 [] = .err (.invalidNrBits 0 1) ∧
+    allAccepted 2 0 wIdentityArity = true ∧
+    runVec (built 2 0 wIdentityArity) 1 [] = .err (.invalidNrBits 2 1) ∧
+    runStab (built 2 0 wIdentityArity) 1 [] = .err (.invalidNrBits 2 1) ∧
+    allAccepted 0 0 wEmptyOperands = true ∧
+    runVec (built 0 0 wEmptyOperands) 1 [] = .err (.invalidNrBits 0 1) ∧
+    runStab (built 0 0 wEmptyOperands) 1 [] = .err (.invalidNrBits 0 1) :=
+  ⟨condArity_accepted, condArity_defects, condArity_vec, condArity_stab, identityArity_accepted, identityArity_vec,
+   identityArity_stab, empty0_accepted, empty0_vec, empty0_stab⟩
+
+/-- **the repaired arity check in general**: for ALL states, gates, operand lists of the wrong length and control
+masks, `apply_gate` of both representations returns `InvalidNrBits(len, arity)`, and `apply_conditional_gate` of
+both returns the same error (`InvalidNrControlBits` for a mask of the wrong length, else `InvalidNrBits`) -/
+theorem gate_arity_rejected_identically {α P : Type} [Zero α] [One α] [Add α] [Mul α] [Neg α] [Sub α]
+    [Amp α P] [SimAmp α] (ph : List Nat) (conjOf : GateTerm P → Tableau.Tab.Conj) (sv : VecState α)
+    (ss : StabState) (g : GateTerm P) (bits : List Nat) (control : List Bool) (hN : sv.nrShots = ss.nrShots)
+    (hl : Gate.nrBits g ≠ bits.length) :
+    VecState.applyGate sv g bits = Prog.err (.invalidNrBits bits.length (Gate.nrBits g)) ∧
+    StabState.applyGate (α := α) ph conjOf ss g bits = Prog.err (.invalidNrBits bits.length (Gate.nrBits g)) ∧
+    ∃ e, VecState.applyConditional sv control g bits = Prog.err e ∧
+      StabState.applyConditional (α := α) ph conjOf ss control g bits = Prog.err e :=
+  Q1t.C18W.gate_arity_rejected_identically ph conjOf sv ss g bits control hN hl
 
 /-- **D11, arity**, exported: `add_gate(H, &[])` is accepted; OpenQASM and c-QASM export index `bits[0]`
 and panic (execution returns `InvalidNrBits`) -/
@@ -289,15 +329,19 @@ theorem neg_ctrl_between_targets : allAccepted 3 0 wCtrlBetween = true ∧
     circDefects (built 3 0 wCtrlBetween) = [.ctrlBetweenTargets] ∧ latexOutcome (built 3 0 wCtrlBetween) = .panic :=
   ⟨ctrl_accepted, ctrl_defects, ctrl_latex⟩
 
-/-- **D11, drawable**: `reset_all` on a circuit without qubits panics in LaTeX -/
-theorem neg_reset_all_no_qubits : allAccepted 0 0 wResetAll0 = true ∧
-    circDefects (built 0 0 wResetAll0) = [.resetAllNoQubits] ∧ latexOutcome (built 0 0 wResetAll0) = .panic :=
-  ⟨resetAll0_accepted, resetAll0_defects, resetAll0_latex⟩
+/-- `reset_all` on a circuit without qubits (findings C13-resetall-zero-qubits-panic / C19-abort-export-latex-reset-all-0q,
+fixed) is well-formed — the conjunct `resetAllNoQubits` of `WellFormed` is gone — and the LaTeX export succeeds -/
+theorem reset_all_no_qubits_exports : allAccepted 0 0 wResetAll0 = true ∧
+    circDefects (built 0 0 wResetAll0) = [] ∧ WellFormed (built 0 0 wResetAll0) 1 = true ∧
+    latexOutcome (built 0 0 wResetAll0) = .ok () :=
+  ⟨resetAll0_accepted, resetAll0_defects, resetAll0_wf, resetAll0_latex⟩
 
-/-- drawable: `barrier(&[])` panics in LaTeX -/
-theorem neg_empty_barrier : allAccepted 1 0 wBarrier0 = true ∧
-    circDefects (built 1 0 wBarrier0) = [.emptyBarrier] ∧ latexOutcome (built 1 0 wBarrier0) = .panic :=
-  ⟨barrier0_accepted, barrier0_defects, barrier0_latex⟩
+/-- `barrier(&[])` (finding C18-latex-empty-barrier-panic, fixed) is well-formed — the conjunct `emptyBarrier` of
+`WellFormed` is gone — and the LaTeX export succeeds -/
+theorem empty_barrier_exports : allAccepted 1 0 wBarrier0 = true ∧
+    circDefects (built 1 0 wBarrier0) = [] ∧ WellFormed (built 1 0 wBarrier0) 1 = true ∧
+    latexOutcome (built 1 0 wBarrier0) = .ok () :=
+  ⟨barrier0_accepted, barrier0_defects, barrier0_wf, barrier0_latex⟩
 
 /-- well-formed composite bodies: a `Composite` holding `H` on local qubit 1 of a one-qubit composite is accepted
 by `Composite::add_gate` and `Circuit::add_gate`; execution (vector) and all three exporters panic -/
